@@ -150,6 +150,61 @@ def chain_round(rep, r, tier):
         shutil.rmtree(tmp, ignore_errors=True)
 
 
+def inject_round(rep, r, tier):
+    """extensions written by `nitool inject` (new keys, forced overwrites within and across
+    classifications) are valid and hold each key once"""
+    import contextlib
+    from dcmstack import nitool_cli
+    from dcmstack.dcmmeta import NiftiWrapper
+    n = 12 if tier == 'quick' else 200
+    tmp = tempfile.mkdtemp(prefix='dcmverif_c07i_')
+    try:
+        for ci in range(n):
+            case = CW.gen_wrapper_case(r, tier, canonical=True, trimmed=True)
+            with contextlib.redirect_stdout(io.StringIO()):
+                w, data, aff = CW.build_wrapper(case)
+            ext = w.meta_ext
+            valid = [M.CLS[tuple(c)] for c in ext.get_valid_classes()]
+            S, T, V = M.dims_of(case['shape'], case['sd'])
+            for trial in range(3):
+                key = r.choice(['newkey'] + [e[0] for e in case['ents']])
+                cname = r.choice(valid)
+                base, sub = M.CLS_INV[cname]
+                vals = [str(r.randint(0, 9)) for _ in range(M.ref_mult(cname, S, T, V))]
+                path = os.path.join(tmp, 'i%d_%d.nii.gz' % (ci, trial))
+                w.to_filename(path)
+                argv = ['nitool', 'inject', path, base, sub, key] + vals + ['-f']
+                rep.evaluations += 1
+                old = [e[1] for e in case['ents'] if e[0] == key]
+                rep.count('inject/' + ('new' if not old else ('same_class' if old[0] == cname else 'other_class')))
+                rep.nontriv(['inject', case, key, cname])
+                buf = io.StringIO()
+                with contextlib.redirect_stdout(buf):
+                    try:
+                        rc = nitool_cli.main(argv)
+                    except SystemExit as e:
+                        rc = e.code
+                I = {'tag': 'cli:inject', 'suite': 'inject', 'case': case, 'argv': argv[2:]}
+                if rc != 0:
+                    rep.failure('nitool inject -f of %d value(s) into %s refused (rc %s)' % (len(vals), cname, rc), I)
+                    continue
+                try:
+                    with contextlib.redirect_stdout(io.StringIO()):
+                        after = NiftiWrapper.from_filename(path)
+                    after.meta_ext.check_valid()
+                except Exception as e:
+                    rep.failure('the file written by nitool inject -f (%s -> %s) has no valid extension: %r' % (old or 'new', cname, e), I)
+                    continue
+                where = [c for c in after.meta_ext.get_valid_classes() if key in after.meta_ext.get_class_dict(c)]
+                if len(where) != 1:
+                    rep.failure('after nitool inject -f the key sits in %d classifications: %s' % (len(where), where), I)
+                for f in CW.img_matches(after, full_affine=True)[:1]:
+                    rep.failure('after nitool inject: ' + f, I)
+                os.remove(path)
+    finally:
+        shutil.rmtree(tmp, ignore_errors=True)
+
+
 def main(pid, tier):
     rep = core.Report(pid, tier)
     rep.disagreements = []
@@ -165,6 +220,7 @@ def main(pid, tier):
     CM.subset_round(rep, pid, [SM.gen_subset_case(r, tier) for _ in range(n['subset'] // 2)], tier)
     CW.extend(rep, pid, tier, r)
     chain_round(rep, r, tier)
+    inject_round(rep, r, tier)
     try:
         from . import check_stack
         check_stack.extend_c07(rep, tier, r)
